@@ -22,6 +22,73 @@ Definition alloc_cell (st : store) (v : value) : store * nat :=
   let loc := length (s_cells st) in
   (mkStore (s_funs st) (s_cells st ++ [v]) (EvAlloc loc v :: s_log st), loc).
 
+(* Variable::of_type at run time: the default value of a type.  The default of a function type is a
+   FRESH function `(p0: .., p1: ..) -> R { return <default of R> }` (Function::of_type), the default of a
+   cell type a FRESH cell holding the default of its content; unions take their first member.
+   [of_type] (Model/Value.v) is the same computation without the allocations (placeholders 0), used
+   where only definedness matters. *)
+Fixpoint dec_digits (fuel : nat) (z : Z) (acc : list Z) : list Z :=
+  match fuel with
+  | O => acc
+  | S f => let acc' := (48 + z mod 10)%Z :: acc in
+           if (z / 10 =? 0)%Z then acc' else dec_digits f (z / 10)%Z acc'
+  end.
+Definition param_name (i : nat) : name := 112%Z :: dec_digits 20 (Z.of_nat i) [].
+Definition default_params (ps : list ty) : params :=
+  (fix go (ps : list ty) (i : nat) : params :=
+     match ps with [] => [] | p :: ps => (param_name i, p) :: go ps (S i) end) ps O.
+
+Fixpoint alloc_default (t : ty) (st : store) : option (value * store) :=
+  match t with
+  | TBool => Some (VBool false, st)
+  | TInt => Some (VInt 0, st)
+  | TFloat => Some (VFloat F_ZERO, st)
+  | TString => Some (VString [], st)
+  | TFun ps r =>
+      match alloc_default r st with
+      | Some (d, st) =>
+          let '(st, id) := alloc_fun st (mkClosure None (default_params ps) (BLang [IUn UReturn (IVar d)]) r) in
+          Some (VFun id ps r, st)
+      | None => None
+      end
+  | TArr e => Some (VArr e [], st)
+  | TTup ts =>
+      match (fix go (ts : list ty) (st : store) : option (list value * store) :=
+               match ts with
+               | [] => Some ([], st)
+               | t :: ts => match alloc_default t st with
+                            | Some (v, st) => match go ts st with
+                                              | Some (vs, st) => Some (v :: vs, st) | None => None end
+                            | None => None
+                            end
+               end) ts st with
+      | Some (vs, st) => Some (VTup vs, st)
+      | None => None
+      end
+  | TVoid => Some (VVoid, st)
+  | TMulti ms => match ms with [] => None | m :: _ => alloc_default m st end
+  | TMut e =>
+      match alloc_default e st with
+      | Some (d, st) => let '(st, loc) := alloc_cell st d in Some (VMut loc e, st)
+      | None => None
+      end
+  | TStruct fs =>
+      match (fix go (fs : list (ident * ty)) (st : store) : option (list (ident * value) * store) :=
+               match fs with
+               | [] => Some ([], st)
+               | (k, t) :: fs => match alloc_default t st with
+                                 | Some (v, st) => match go fs st with
+                                                   | Some (vs, st) => Some ((k, v) :: vs, st) | None => None end
+                                 | None => None
+                                 end
+               end) fs st with
+      | Some (vs, st) => Some (VStruct vs, st)
+      | None => None
+      end
+  | TAny => Some (VVoid, st)
+  | TNever => None
+  end.
+
 Fixpoint list_set {A} (l : list A) (k : nat) (x : A) : list A :=
   match l, k with
   | [], _ => []
@@ -347,9 +414,9 @@ Fixpoint exec (fuel : nat) (st : store) (sc : scopes) (i : instr) {struct fuel} 
           end)
     | ITypeFilter x t =>
         with_val x st sc (fun st sc itv =>
-          match of_type t with
+          match alloc_default t st with
           | None => (st, sc, SPanic)               (* Variable::of_type(..).unwrap() *)
-          | Some d =>
+          | Some (d, st) =>
               let '(st, id) := alloc_fun st (mkClosure None [] (BLang (type_filter_body itv d t)) (TTup [TBool; t])) in
               (st, sc, SVal (VFun id [] (TTup [TBool; t])))
           end)
@@ -487,7 +554,7 @@ Fixpoint exec (fuel : nat) (st : store) (sc : scopes) (i : instr) {struct fuel} 
               match element_type (as_type v) with
               | None => (st, sc, SPanic)
               | Some et =>
-                  let d := match of_type et with Some d => d | None => VVoid end in
+                  let '(d, st) := match alloc_default et st with Some ds => ds | None => (VVoid, st) end in
                   match call (p_iter pre) [v; d] st sc with
                   | (st, sc, SVal f) => retyped f (TTup [TBool; et]) st sc
                   | (st, sc, SError _) => (st, sc, SPanic)     (* .unwrap() on the call result *)
